@@ -35,8 +35,8 @@ def content : Nat → Heap → V → Option Tree
     | .null => some .null
     | .bool b => some (.bool b)
     | .int i => some (.num (Dy.ofInt i))
-    | .num d => some (.num d)
-    | .flt d => some (.num d)
+    | .num d => some (.num (Dy.norm d.m d.e))
+    | .flt d => some (.num (Dy.norm d.m d.e))
     | .sstr s => some (.str s)
     | .str s => some (.str s)
     | .arr id =>
@@ -4360,6 +4360,131 @@ theorem Inv.no_leak {σ : State} (inv : Inv σ []) (hroots : ∀ v ∈ σ.slots,
   obtain ⟨p, bp, hp, hle⟩ := climb (rankMax rank σ.heap.length + 1) id b hb
   have := rankMax_ge rank σ.heap.length p (getB_lt hp)
   omega
+
+
+
+
+theorem Dy.valEq_symm {a b : Dy} (h : a.ValEq b) : b.ValEq a := by unfold Dy.ValEq at *; exact h.symm
+
+theorem Dy.valEq_trans {a b c : Dy} (h1 : a.ValEq b) (h2 : b.ValEq c) : a.ValEq c := by
+  unfold Dy.ValEq at *
+  have hpos := pow2_pos b.e
+  apply Int.eq_of_mul_eq_mul_right (Int.ne_of_gt hpos)
+  calc a.m * 2 ^ c.e * 2 ^ b.e = (a.m * 2 ^ b.e) * 2 ^ c.e := by ac_rfl
+    _ = (b.m * 2 ^ a.e) * 2 ^ c.e := by rw [h1]
+    _ = (b.m * 2 ^ c.e) * 2 ^ a.e := by ac_rfl
+    _ = (c.m * 2 ^ b.e) * 2 ^ a.e := by rw [h2]
+    _ = c.m * 2 ^ a.e * 2 ^ b.e := by ac_rfl
+
+/-- the normal forms of two pairs coincide exactly when the pairs denote the same number -/
+theorem Dy.norm_eq_iff (a b : Dy) : Dy.norm a.m a.e = Dy.norm b.m b.e ↔ a.ValEq b := by
+  constructor
+  · intro h
+    have ha := Dy.norm_valEq a.m a.e
+    have hb := Dy.norm_valEq b.m b.e
+    rw [h] at ha
+    exact Dy.valEq_trans (Dy.valEq_symm ha) hb
+  · intro h
+    apply Dy.normal_unique (Dy.norm_normal _ _) (Dy.norm_normal _ _)
+    exact Dy.valEq_trans (Dy.norm_valEq a.m a.e) (Dy.valEq_trans h (Dy.valEq_symm (Dy.norm_valEq b.m b.e)))
+
+theorem Dy.norm_ofInt (i : Int) : Dy.norm (Dy.ofInt i).m (Dy.ofInt i).e = Dy.ofInt i := rfl
+
+
+
+
+/-- a typed assignment leaves the target readable with the new value (the Var survives the release of what it held) -/
+theorem Inv.storeV_target {σ σ' : State} {T : List V} {t : Loc} {nv : V} (inv : Inv σ T) (hl : ValidLoc σ t)
+    (hnv : handleOf nv = none) (hs : Var.storeV σ t nv = .ok σ') : readLoc σ' t = .ok nv := by
+  obtain ⟨old, hr, _⟩ := readLoc_valid hl T
+  obtain ⟨σ1, old', hr', hw, inv1, dom, hrd⟩ := ((Inv.scalar hnv).mpr inv).writeLoc hl (fun _ _ _ h => by rw [hnv] at h; cases h)
+  rw [hr] at hr'; cases hr'
+  unfold Var.storeV at hs
+  simp only [hr, hw] at hs
+  cases hd : Var.drop σ1.heap [old] with
+  | error e => simp [hd] at hs
+  | ok h3 =>
+    simp only [hd, Except.ok.injEq] at hs
+    subst hs
+    cases t with
+    | slot k => simp only [readLoc] at hrd ⊢; exact hrd
+    | item B p =>
+      obtain ⟨bB, hbB, hp⟩ := hl
+      obtain ⟨rank, hrk⟩ := inv.ranked
+      have hedgeOld : ∀ c, handleOf old = some c → Edge σ.heap B c := by
+        intro c hc'
+        refine ⟨bB, hbB, old, ?_, hc'⟩
+        simp only [readLoc, hbB] at hr
+        cases hi' : bB.items[p]? with
+        | none => simp [hi'] at hr
+        | some kv =>
+          simp only [hi', Except.ok.injEq] at hr
+          rw [← hr]; exact List.mem_map_of_mem (List.mem_of_getElem? hi')
+      have hsub : ∀ x y, Edge σ1.heap x y → Edge σ.heap x y := by
+        intro x y e
+        simp only [Var.writeLoc, hbB, hp, if_true, Except.ok.injEq] at hw
+        subst hw
+        exact edge_setScalar hbB hnv e
+      have hno : ∀ v ∈ [old], ∀ c, handleOf v = some c → ¬ Reach σ1.heap c B := by
+        intro v hv c hc' r
+        simp only [List.mem_singleton] at hv; subst hv
+        have hlt := hrk B c (hedgeOld c hc')
+        have := Reach.rank_le hrk (Reach.mono hsub r)
+        omega
+      have hfr := release_frame _ σ1.heap h3 [old] B hd hno
+      simp only [readLoc] at hrd ⊢
+      have : getB h3 B = getB σ1.heap B := by unfold getB; rw [hfr]
+      rw [this]; exact hrd
+
+/-! ## every held value denotes a finite tree -/
+
+theorem mapO_some {α β : Type} {g : α → Option β} : ∀ (l : List α), (∀ x ∈ l, ∃ y, g x = some y) → ∃ ys, mapO l g = some ys
+  | [], _ => ⟨[], rfl⟩
+  | x :: xs, h => by
+    obtain ⟨y, hy⟩ := h x (by simp)
+    obtain ⟨ys, hys⟩ := mapO_some xs (fun z hz => h z (by simp [hz]))
+    exact ⟨y :: ys, by simp [mapO, hy, hys]⟩
+
+/-- in a state satisfying the invariant (acyclic, no dangling handle) every value whose block is live denotes a tree:
+`content` is defined for a sufficiently large recursion bound — the equality and assignment theorems are never
+vacuous -/
+theorem Inv.content_defined {σ : State} {T : List V} (inv : Inv σ T) : ∀ v, LiveV σ.heap v → ∃ f tr, content f σ.heap v = some tr := by
+  obtain ⟨rank, hrk⟩ := inv.ranked
+  have key : ∀ n v, LiveV σ.heap v → (∀ c, handleOf v = some c → rank c < n) → ∃ tr, content (n + 1) σ.heap v = some tr := by
+    intro n
+    induction n with
+    | zero =>
+      intro v _ hr
+      cases hh : handleOf v with
+      | some c => exact absurd (hr c hh) (by omega)
+      | none => cases v <;> simp [handleOf] at hh <;> exact ⟨_, rfl⟩
+    | succ n ih =>
+      intro v hv hr
+      cases hh : handleOf v with
+      | none => cases v <;> simp [handleOf] at hh <;> exact ⟨_, rfl⟩
+      | some c =>
+        obtain ⟨b, hb, _⟩ := hv c hh
+        have hch : ∀ kv ∈ b.items, ∃ tr, content (n + 1) σ.heap kv.2 = some tr := by
+          intro kv hkv
+          have hmem : kv.2 ∈ bvals b := List.mem_map_of_mem hkv
+          apply ih kv.2 (inv.wf.liveV (Or.inr (mem_hvals_of_getB hb hmem)))
+          intro c' hc'
+          have := hrk c c' ⟨b, hb, kv.2, hmem, hc'⟩
+          have := hr c hh
+          omega
+        rw [content_handle hh hb]
+        by_cases ho : isObjV v = true
+        · simp only [ho, if_true]
+          obtain ⟨ys, hys⟩ := mapO_some (g := fun kv : Bytes × V => (content (n + 1) σ.heap kv.2).map (fun t => (kv.1, t))) b.items
+            (fun kv hkv => by obtain ⟨tr, h⟩ := hch kv hkv; exact ⟨(kv.1, tr), by simp [h]⟩)
+          exact ⟨_, by rw [hys]; rfl⟩
+        · simp only [ho]
+          obtain ⟨ys, hys⟩ := mapO_some (g := fun kv : Bytes × V => content (n + 1) σ.heap kv.2) b.items hch
+          exact ⟨_, by rw [hys]; rfl⟩
+  intro v hv
+  cases hh : handleOf v with
+  | none => obtain ⟨tr, h⟩ := key 0 v hv (fun c hc => by rw [hh] at hc; cases hc); exact ⟨_, tr, h⟩
+  | some c => obtain ⟨tr, h⟩ := key (rank c + 1) v hv (fun c' hc' => by rw [hh] at hc'; cases hc'; omega); exact ⟨_, tr, h⟩
 
 
 end AslModel.Var
